@@ -203,7 +203,11 @@ class UCFG(UGrammar[U, List[Tuple[Type, U]], List[Tuple[Type, U]]], Generic[U]):
         for NT in self.rules:
             rules[NT] = {}
             for P in self.rules[NT]:
-                if isinstance(P, Constant) and P.type in constants:
+                if (
+                    isinstance(P, Constant)
+                    and not P.has_value()
+                    and P.type in constants
+                ):
                     for val in constants[P.type]:
                         rules[NT][Constant(P.type, val, True)] = self.rules[NT][P]
                 else:
